@@ -1,6 +1,6 @@
 # Copyright 2024, Battelle Energy Alliance, LLC All Rights Reserved.
 from montepy import constants
-from montepy.utilities import fortran_float
+from montepy.utilities import fortran_float, is_comment
 import re
 from sly import Lexer
 
@@ -432,11 +432,41 @@ class ParticleLexer(MCNP_Lexer):
     @_(r"[+\-]?[0-9]*\.?[0-9]*E?[+\-]?[0-9]*[ijrml]+[a-z\./]*", r"[a-z]+[a-z\./]*")
     def TEXT(self, t):
         t = super().TEXT(t)
-        if t.value.lower() in self._KEYWORDS:
+        if t.value.lower() in self._PARTICLES and self._expects_particle(t):
+            t.type = "PARTICLE"
+        elif t.value.lower() in self._KEYWORDS:
             t.type = "KEYWORD"
         elif t.value.lower() in self._PARTICLES:
             t.type = "PARTICLE"
         return t
+
+    def _expects_particle(self, t):
+        """
+        Whether this word stands where only a particle designator can: directly after the ``:`` or ``,``
+        of a classifier (``imp:u``, ``f4:n,x``), among the entries of a MODE input, or as the value of the
+        SDEF variable ``par``.
+
+        The designators ``u``, ``x``, ``y`` and ``z`` are keywords as well; there they are particles.
+
+        :param t: the token being classified
+        :type t: sly.lex.Token
+        :rtype: bool
+        """
+        if t.index > 0 and self.text[t.index - 1] in ":,":
+            return True
+        before = self.text[: t.index]
+        # the first word of the input proper: comment lines may precede it
+        words = []
+        for line in before.split("\n"):
+            if not is_comment(line):
+                words = line.split("$")[0].split()
+                if words:
+                    break
+        if len(words) >= 1 and words[0].lower() == "mode":
+            return True
+        # the value of the source variable PAR (sdef par=x)
+        key = before.rstrip().rstrip("=").rstrip().lower()
+        return key.endswith("par") and not key[-4:-3].isalnum()
 
 
 class CellLexer(ParticleLexer):
